@@ -841,6 +841,15 @@ class Association(threading.Thread):
         rsp.AffectedSOPInstanceUID = req.AffectedSOPInstanceUID
         rsp.AffectedSOPClassUID = req.AffectedSOPClassUID
 
+        if req._context_id not in self._accepted_cx:
+            # Don't service requests on contexts that haven't been accepted
+            LOGGER.info(
+                "Received C-STORE request with invalid or rejected "
+                f"context ID: {req._context_id}"
+            )
+            self.abort()
+            return
+
         try:
             context = self._get_valid_context(
                 cast(UID, req.AffectedSOPClassUID),
